@@ -13,6 +13,7 @@ import GfsModel.Seqls
 import GfsModel.Expected
 import GfsGen.Facts
 import GfsProofs.SeqlsLemmas
+import GfsModel.ExpectedSrc
 
 namespace Gfs.Props.C17
 open Gfs.Seqls Gfs.Proofs Gfs.Proofs.SeqlsP
@@ -57,5 +58,10 @@ theorem C17_bad_arg_isolated (seqs dirs : List Item) (bad : Item) (hb : bad.resu
 /-- the goroutine / channel skeleton of the work manager, re-extracted from manager.go on this
     run, is the one the transition system was written from -/
 theorem C17_skeleton : Gfs.Gen.seqlsSkeleton = Gfs.expectedSeqlsSkeleton := by decide +kernel
+
+/-- the declarations of /repo this property's model and specification were written from are,
+    on this run, the ones the model was last aligned with (digest of their comment- and
+    layout-insensitive fingerprints, re-extracted by tools/gofacts) -/
+theorem C17_source : Gfs.Gen.sourceDigestC17 = Gfs.expectedSourceDigestC17 := by decide
 
 end Gfs.Props.C17
